@@ -1170,7 +1170,9 @@ class quantized_linear(base_quantizer.BaseQuantizer):
         "alpha": self.alpha,
         "keep_negative": self.keep_negative,
         "use_stochastic_rounding": self.use_stochastic_rounding,
-        "qnoise_factor": self.qnoise_factor,
+        "scale_axis": self.scale_axis,
+        "qnoise_factor": self.qnoise_factor.numpy() if isinstance(
+            self.qnoise_factor, tf.Variable) else self.qnoise_factor,
     }
     return config
 
